@@ -994,3 +994,104 @@ def _(i, st, a, c):
     if isinstance(a[0], Ref):
         i.deref_write(st, a[0], list_iter([]))
     return _any_all(i, st, items, a[1], False)
+
+
+# ----------------------------------------------------------------------------- vec![a, b, ..] (this nightly's lowering)
+# _b = Box::<[T; N]>::new_uninit();  (*(_b.0.0 as *const MaybeUninit<[T;N]>)).1.0.0 = [..];  box_assume_init_into_vec_unsafe(_b)
+
+@model(r'Box::new_uninit')
+def _(i, st, a, c):
+    from .interp import _heap_ids
+    h = next(_heap_ids)
+    st.heap[h] = Agg('MaybeUninit', (UNIT, Agg('ManuallyDrop', (Agg('MaybeDangling', (Opaque('uninit'),)),))))
+    return Agg('Box', (Agg('Unique', (Ref(('H', h)),)),))
+
+
+@model(r'std::boxed::box_assume_init_into_vec_unsafe')
+def _(i, st, a, c):
+    r = a[0].items[0].items[0]
+    v = i.deref_read(st, r).items[1].items[0].items[0]
+    if not isinstance(v, Agg):
+        raise Unsupported('vec! box not initialised')
+    return Agg('Vec', v.items)
+
+
+@model(r'<.* as Iterator>::skip_while')
+def _(i, st, a, c):
+    items = _as_list(i, st, a[0])
+    work = [(st, 0)]
+    out = []
+    while work:
+        s, k = work.pop()
+        if k == len(items):
+            out.append((s, list_iter([])))
+            continue
+        from .interp import _heap_ids
+        h = next(_heap_ids)
+        s.heap[h] = items[k]
+        for s2, r in i.call_closure(s, a[1], [Ref(('H', h))]):
+            for s3, bv in _fork_bool(i, s2, r):
+                if bv:
+                    work.append((s3, k + 1))
+                else:
+                    out.append((s3, list_iter(items[k:])))
+    return out
+
+
+@model(r'<.* as Iterator>::skip')
+def _(i, st, a, c):
+    n = a[1]
+    if is_z3(n):
+        raise Unsupported('skip with symbolic count')
+    return list_iter(_as_list(i, st, a[0])[n:])
+
+
+@model(r'<.* as Iterator>::filter')
+def _(i, st, a, c):
+    items = _as_list(i, st, a[0])
+    work = [(st, 0, [])]
+    out = []
+    while work:
+        s, k, acc = work.pop()
+        if k == len(items):
+            out.append((s, list_iter(acc)))
+            continue
+        from .interp import _heap_ids
+        h = next(_heap_ids)
+        s.heap[h] = items[k]
+        for s2, r in i.call_closure(s, a[1], [Ref(('H', h))]):
+            for s3, bv in _fork_bool(i, s2, r):
+                work.append((s3, k + 1, acc + ([items[k]] if bv else [])))
+    return out
+
+
+def _fold_select(i, st, items, clo, keep_new_if):
+    """std max_by / min_by: fold keeping `best`; compare(best, x) decides.  max_by keeps the LAST maximal element
+    (replaces best when compare(best, x) != Greater); min_by keeps the FIRST minimal one (replaces when == Greater)."""
+    if not items:
+        return Var('None', (), 'Option')
+    from .interp import _heap_ids
+    work = [(st, items[0], 1)]
+    out = []
+    while work:
+        s, best, k = work.pop()
+        if k == len(items):
+            out.append((s, Var('Some', (best,), 'Option')))
+            continue
+        h1, h2 = next(_heap_ids), next(_heap_ids)
+        s.heap[h1] = best
+        s.heap[h2] = items[k]
+        for s2, o in i.call_closure(s, clo, [Ref(('H', h1)), Ref(('H', h2))]):
+            nb = items[k] if keep_new_if(o.name) else best
+            work.append((s2, nb, k + 1))
+    return out
+
+
+@model(r'<.* as Iterator>::max_by')
+def _(i, st, a, c):
+    return _fold_select(i, st, _as_list(i, st, a[0]), a[1], lambda name: name != 'Greater')
+
+
+@model(r'<.* as Iterator>::min_by')
+def _(i, st, a, c):
+    return _fold_select(i, st, _as_list(i, st, a[0]), a[1], lambda name: name == 'Greater')
